@@ -14,6 +14,8 @@ const AW: &str = "aw = #[(@-> 'int), 'int] { =[p, s], w = [s, 0] spin, r = !p, [
 const BY: &str = "by = #['int, 'int] { =[n, s], w = [s, 0] spin, [n, 5] __integer_add__ }";
 const SNDV: &str = "sndv = #[(@'int), 'int, 'int, 'int] { | =[to, base, 0, s] => 0 | =[to, base, k, s] => { base to, w = [s, 0] spin, [&to, [base, 1] __integer_add__, [k, 1] __integer_subtract__, s] ^ } }";
 const REL: &str = "rel = #(@-> 'int) { =p, ! [p, #'int] }";
+const REL2: &str = "rel2 = #(@-> 'int) { =p, m = ! [p, 0], f = [\"/rel2\" .0, 577, 420] __file_open__, w = [f, 0, 0x010203] __file_write__, d = [f, 0, 8] __file_read__, e = [f, 0, 8] __file_read__, 1 }";
+const REL3: &str = "rel3 = #(@-> 'int) { =p, f = [\"/rel3\" .0, 577, 420] __file_open__, w = [f, 0, 0x010203] __file_write__, m = ! [p, #'int { =q, d = [f, 0, 8] __file_read__, Ok }], 1 }";
 const SINK: &str = "sink = #{ !#\\File, 5 }";
 
 #[derive(Clone, Copy, Debug, PartialEq)]
@@ -70,7 +72,7 @@ impl Property for C15 {
         "cases: a victim process fails at a generated point (builtin domain errors, missing file, ownership violation, injected backend write error, spawn/send/nested select inside a receive filter) inside a generated system of by-standers, direct and transitive single-source awaiters that await before, during or after the failure, senders to the victim before/after its death, and a multi-source selector (counted, not judged); each scenario runs under V sampled schedule/configuration variants. Non-trivial: >=2 workers, >=1 out-of-order handled message or injected fault, conclusive. Distinct = distinct (scenario shape, interleaving hash) pairs."
     }
     fn required_probes(&self) -> Vec<&'static str> {
-        vec!["awaiter_failed_with_victims_error", "bystander_unaffected", "client_saw_victim_error", "sender_to_dead_unaffected", "repl_session_survived_odd_line"]
+        vec!["awaiter_failed_with_victims_error", "bystander_unaffected", "client_saw_victim_error", "sender_to_dead_unaffected", "repl_session_survived_odd_line", "awaiter_with_effect_in_flight"]
     }
     fn draw_cfg(&self, rng: &mut Rng, scn: &Scenario) -> crate::world::RunCfg {
         // the failure is the scenario's own; no additional random backend faults
@@ -102,7 +104,7 @@ impl Property for C15 {
         let receives = !filter_kind && rng.chance(1, 2);
         let vspin = *rng.pick(&[0u32, 0, 5, 20, 60]);
         let (vdef, io) = victim_def(f, vspin, receives);
-        let mut defs: Vec<String> = vec![super::c04::SPIN.into(), AW.into(), BY.into(), SNDV.into(), REL.into()];
+        let mut defs: Vec<String> = vec![super::c04::SPIN.into(), AW.into(), BY.into(), SNDV.into(), REL.into(), REL2.into(), REL3.into()];
         if f == Fail::Ownership {
             defs.push(SINK.into());
         }
@@ -176,6 +178,22 @@ impl Property for C15 {
             body.push("77 rl".to_string());
             h.u64(0xab);
         }
+        // processes that once awaited the victim and have an effect in flight when its failure
+        // arrives (after a timed-out await, or inside a receive filter); outcome not judged
+        let mut io_awaiters = false;
+        // (not next to an injected-write victim: the fault plan counts backend requests)
+        if !matches!(f, Fail::InjectedWrite(_)) && rng.chance(1, 3) {
+            io_awaiters = true;
+            if rng.chance(1, 2) {
+                body.push("r2 = &v @rel2".to_string());
+                let _ = fresh_path(&mut next_child);
+            } else {
+                body.push("r3 = &v @rel3".to_string());
+                let _ = fresh_path(&mut next_child);
+                body.push("5 r3".to_string());
+            }
+            h.u64(0xef);
+        }
         // await by-standers
         for i in 0..nby {
             body.push(format!("rb{i} = !b{i}"));
@@ -222,9 +240,10 @@ impl Property for C15 {
             modules: vec![],
             files: Default::default(),
             timing: false,
-            io,
+            io: io || io_awaiters,
             fixed_faults,
             expect: serde_json::json!({
+                "io_awaiters": io_awaiters,
                 "victim": vpath,
                 "must_carry_victims_error": expect_err,
                 "values": expect_val,
@@ -367,6 +386,9 @@ pub fn probes_from(scn: &Scenario, r: &RunResult) -> BTreeMap<String, u64> {
     }
     if e["senders"].as_u64().unwrap_or(0) > 0 {
         m.insert("sender_to_dead_unaffected".into(), 1);
+    }
+    if e["io_awaiters"].as_bool().unwrap_or(false) {
+        m.insert("awaiter_with_effect_in_flight".into(), 1);
     }
     if let Some(p) = e["relaxed"].as_str() {
         match r.procs.get(p) {
